@@ -54,7 +54,7 @@ CHECKS = {
         text="Machine-checked proof that, for every program and canonical argument values, the document a message serialises to is routed to exactly the handler it was "
              "generated from (part and method), each value bound to the same-named parameter, context unchanged (dispatch_exact, via the wrapper theorem of C03), also for "
              "instantiate/migrate; error conversion table. Tied to the code by running every handler of every compiled generated contract through Msg::dispatch and the "
-             "entry points with echo handlers (Ok, own Err, sibling Err), compared with the model and with an independent expected-output oracle.",
+             "entry points with echo handlers (Ok, own Err, sibling Err), compared with the model and with an independent expected-output oracle. The context types of sylvia/src/ctx.rs and their From<tuple> conversions are regenerated as Lean definitions on every run (CtxFn.*: every component arrives in the field of its own name).",
         design="§8 C02",
         technique="Lean 4 proof (refinement of decode+dispatch to a single Call) + L2 differential with echo handlers",
         note=TB + " Handler bodies are a parameter; 'exactly once' is structural in the model and observed through the echo markers."),
@@ -100,7 +100,7 @@ CHECKS = {
              "(invariant by induction over the fold), so for every table and declaration order a success runs the method declared success (with gas, events, message "
              "responses; data per C09) else the always method with the full result, a failure the error/always method, uncovered outcomes are passed through, unknown ids "
              "are errors. Tie: sv::dispatch_reply of compiled generated contracts with echo handlers on crafted replies, model vs real vs an independent python statement; "
-             "source forms of the table construction recognised on every run.",
+             "source forms of the table construction recognised on every run. ReplyOn::excludes and ReplyCtx's From<tuple> conversion are regenerated from the source on every run and proved equal to what the model assumes (ReplyOnFn.excludes_eq, CtxFn.reply_from).",
         design="§8 C07",
         technique="Lean 4 proof (fold invariant + position-independent lookup) + L2 differential on dispatch_reply",
         note=TB + " Reply handlers must return the contract's own error type (the generated dispatcher performs no conversion)."),
@@ -109,7 +109,7 @@ CHECKS = {
              "names of the C01 shape (the pieces are recovered by splitting on `_` and re-parsing letters/digits), with the counterexample outside the shape (foo1 / foo_1) proved "
              "as well; the requested trigger is always iff an always method or both success and error methods exist; builders on SubMsg keep message and gas limit, converters "
              "drop the gas limit; canonical payload values decode back to themselves (one and several values). Tie: the real SubMsgMethods on the three receiver types and the "
-             "round trip builder -> reply -> handler in compiled generated contracts.",
+             "round trip builder -> reply -> handler in compiled generated contracts. ReplyData::emit_cw_reply_on is regenerated from reply.rs on every run and proved equal to the model's trigger for every handler list (ReplyDataFn.emit_cw_reply_on_eq).",
         design="§8 C08",
         technique="Lean 4 proof + L2 differential on SubMsgMethods and dispatch_reply round trips",
         note=TB + " Names outside the C01 shape can share an id string (then the generated constants collide at compile time)."),
@@ -124,7 +124,7 @@ CHECKS = {
         text="Machine-checked proofs on the model of CheckGenerics / filter_wheres: a parameter is in a message type's list iff it occurs (visitor's notion) in an argument "
              "of a handler of that kind (or a query response), each once; used/unused partition the user's parameters; a where-predicate is kept iff every parameter it "
              "mentions is used; type, placeholder and Api alias carry the same list. Tie: generic parameter lists, where clauses, dispatch generics and Api aliases of "
-             "hundreds of real expansions (generic contracts, interfaces with associated types) vs the model and vs an independent python statement.",
+             "hundreds of real expansions (generic contracts, interfaces with associated types) vs the model and vs an independent python statement. CheckGenerics (check_generics.rs) and filter_wheres (utils.rs) are regenerated as Lean definitions on every run and proved equal to the model's usedOf / filterWheres for every parameter list and every sequence of visited paths (GenericsFn.used_eq_model, used_unused_eq, filter_wheres_is_model).",
         design="§8 C15",
         technique="Lean 4 proof (membership characterisations) + L1 differential on real expansions",
         note=TB + " The 'can be named, built, encoded and dispatched with just those types' clause is exercised on nine compiled configurations of generic interfaces / generic contract (stream L2-generic-programs), not proved. Known limitation: projections T::Assoc."),
@@ -150,7 +150,7 @@ CHECKS = {
              "routing lists identical (sorting forgets input order: proved via antisymmetry of the byte order), wire names and fields the same multiset, a message name "
              "selects the same variant, same set of entry points, same reply trigger and same method found for success/failure (position-independent lookup in every table "
              "the fold can build), same cardinalities for the structural validations. Tie: real expansions of programs (valid and invalid) against two reorderings each (L1) "
-             "and compiled programs against a reordered twin on routing, dispatch, unknown-name errors, reply behaviour and builders (L2).",
+             "and compiled programs against a reordered twin on routing, dispatch, unknown-name errors, reply behaviour and builders (L2). ReplyOn::excludes and emit_cw_reply_on are regenerated from the source and proved equal to the model's functions the permutation theorems are about.",
         design="§8 C14",
         technique="Lean 4 proof (permutation invariance) + L1/L2 twin differential on the real macros",
         note=TB + " Numeric reply ids and the order of type parameters of generic message types are positional (excluded / recorded)."),
@@ -183,7 +183,7 @@ CHECKS = {
              "handler's error is returned as that value, no proxy unwraps a downcast (table regenerated from source). The lowering, the defaults, the setters, the call forms "
              "and the kind spliced into each of the six Contract operations are re-read from contract/mt.rs, interface/mt.rs and multitest.rs on every run. Tie: random "
              "histories per compiled generated contract run through the real proxies on one cw-multi-test chain and, lowered by the model, as raw JSON bytes on a second "
-             "identically seeded chain; after every step result and full chain state (contract records, storage, balances) of both chains and of the model are compared.",
+             "identically seeded chain; after every step result and full chain state (contract records, storage, balances) of both chains and of the model are compared. downcast_error, ExecProxy and MigrateProxy of sylvia/src/multitest.rs are regenerated as Lean definitions on every run and proved to be the raw chain operation with the same values and the documented error conversion (MtProxyFn.exec_call_eq, migrate_call_eq, downcast_error_eq).",
         design="§8 C12",
         technique="Lean 4 proof (refinement of proxy histories to raw-JSON histories over an abstract chain) + tables regenerated from source + L2 twin-chain differential",
         note=TB + " cw-multi-test is modelled only as far as the histories exercise it (balances, contract records, atomic steps, five own errors); reply and override "
